@@ -418,6 +418,28 @@ def one_case(run, seed, idx, mods):
         ad = dict(desc, route="indexer.assigntorings", limit=lim_a)
         check_list(run, ua, cell, sym, lim_a + tol, ua.peaks, ad, "assigntorings")
         check_rings(run, ua, lim_a, tol, ad)
+    # ---- the transformer route (fitting gui, scripts): addcellpeaks builds the list from the parameters; the centring is
+    # then changed on the same object (trying P, then F, then I on one cell) and the list asked for again
+    if idx % 4 == 1 and not long_axis:
+        import contextlib, io
+        from ImageD11 import transformer, columnfile
+        rt = rng(seed, "C03", idx, "transformer")
+        wl = 0.3
+        lim_t = min(dsmax, 1.9 / wl)
+        tthlim = float(np.degrees(2 * np.arcsin(wl * lim_t / 2)))
+        with contextlib.redirect_stdout(io.StringIO()):
+            tr = transformer.transformer()
+            tr.colfile = columnfile.colfile_from_dict({"tth": np.array([0.5 * tthlim, tthlim])})
+            syms = [sym] + [str(x) for x in rt.choice([c for c in "PABCIFR" if c != sym], 2, replace=False)]
+            for step_, sy in enumerate(syms):
+                tr.parameterobj.set_parameters({"cell__a": cell[0], "cell__b": cell[1], "cell__c": cell[2], "cell_alpha": cell[3],
+                                                "cell_beta": cell[4], "cell_gamma": cell[5],
+                                                "cell_lattice_[P,A,B,C,I,F,R]": sy, "wavelength": wl})
+                tr.addcellpeaks(limit=tthlim)
+                run.count("transformer_addcellpeaks_calls")
+                tdesc = dict(desc, route="transformer.addcellpeaks", sym=sy, history=["centring %s" % q for q in syms[:step_ + 1]],
+                             dsmax=float(tr.dslimit))
+                check_list(run, tr.unitcell, cell, sy, float(tr.dslimit), tr.theorypeaks, tdesc, "transformer.addcellpeaks")
     # rings
     lim = dsmax * float(r.uniform(0.5, 1.0))
     uc2 = build_uc(unitcell, route, cell, sym)
@@ -453,6 +475,7 @@ def check(run, replay=None):
     run.require_counter("limit_on_a_shell_calls", 200)
     run.require_counter("ring_tolerance_equal_to_a_gap", 50)
     run.require_counter("cache_hit_calls", 50)
+    run.require_counter("transformer_addcellpeaks_calls", 30)
     run.require_counter("long_axis_cases_index_beyond_127", 5)
     run.require_counter("cache_hit_makerings", 10)
     run.require_counter("assigntorings_tables", 20)
